@@ -68,7 +68,34 @@ ENTRY = [
     ('SdJwtCredentialValidator::verify_signature', r'sd_jwt::validator::<impl at [^>]*>::verify_signature$', None, r'sd_jwt::validator::<impl at [^>]*>::verify_signature::\{closure', 1),
     ('CredentialJwtClaims::try_into_credential', r'credential::jwt_serialization::<impl at [^>]*>::try_into_credential$', None, r'check_consistency(::\{closure.*)?$|to_issuance_date(::\{closure.*)?$', 1),
     ('PresentationJwtClaims::try_into_presentation', r'presentation::jwt_serialization::<impl at [^>]*>::try_into_presentation$', None, r'check_consistency(::\{closure.*)?$', 1),
+    # SD-JWT VC: claim paths / type metadata / token validation over externally supplied JSON
+    ('ClaimMetadata::check_value_disclosability', r'claim::<impl at identity_credential/src/sd_jwt_vc/[^>]*>::check_value_disclosability$', None, r'check_value_disclosability::\{closure', 2),
+    ('ClaimPath::reverse_index', r'claim::<impl at identity_credential/src/sd_jwt_vc/[^>]*>::reverse_index$', None, r'reverse_index::\{closure', 2),
+    ('OneOrManyValue::get', r'claim::<impl at identity_credential/src/sd_jwt_vc/[^>]*>::get$', None, r'claim::<impl at [^>]*>::get::\{closure', 2),
+    ('claim::index_value', r'^index_value$', None, r'index_value::\{closure', 1),
+    ('OneOrManyValueIter::next', r'claim::<impl at identity_credential/src/sd_jwt_vc/[^>]*>::next$', None, None, 1),
+    ('ClaimPath::try_from<Vec>', r'claim::<impl at identity_credential/src/sd_jwt_vc/[^>]*>::try_from$', r'Vec<', None, 1),
+    ('SdJwtVcClaims::try_from_sd_jwt_claims', r'claims::<impl at identity_credential/src/sd_jwt_vc/[^>]*>::try_from_sd_jwt_claims$', None, r'try_from_sd_jwt_claims::\{closure', 1),
+    ('SdJwtVc::verify_signature', r'token::<impl at identity_credential/src/sd_jwt_vc/[^>]*>::verify_signature$', None, r'token::<impl at identity_credential/src/sd_jwt_vc/[^>]*>::verify_signature::\{closure', 1),
+    ('SdJwtVc::validate_claims_disclosability', r'token::<impl at identity_credential/src/sd_jwt_vc/[^>]*>::validate_claims_disclosability$', None, r'validate_claims_disclosability::\{closure', 2),
+    ('SdJwtVc::verify_key_binding', r'token::<impl at identity_credential/src/sd_jwt_vc/[^>]*>::verify_key_binding$', None, r'token::<impl at identity_credential/src/sd_jwt_vc/[^>]*>::verify_key_binding::\{closure', 1),
+    ('SdJwtVc::validate_key_binding', r'token::<impl at identity_credential/src/sd_jwt_vc/[^>]*>::validate_key_binding$', None, r'token::<impl at identity_credential/src/sd_jwt_vc/[^>]*>::validate_key_binding::\{closure', 1),
+    ('sd_jwt_vc::vct_to_url', r'^vct_to_url$', None, r'vct_to_url::\{closure', 1),
+    ('SdJwtVc::try_from<SdJwt>', r'token::<impl at identity_credential/src/sd_jwt_vc/[^>]*>::try_from$', r'SdJwt', r'token::<impl at identity_credential/src/sd_jwt_vc/[^>]*>::try_from::\{closure', 1),
+    ('IssuerMetadata::validate', r'issuer::<impl at identity_credential/src/sd_jwt_vc/[^>]*>::validate$', None, r'issuer::<impl at [^>]*>::validate::\{closure', 1),
+    ('TypeMetadata::validate_credential', r'vc_type::<impl at identity_credential/src/sd_jwt_vc/[^>]*>::validate_credential$', None, r'validate_credential::\{closure', 1),
+    ('vc_type::validate_credential_with_schema', r'^validate_credential_with_schema$', None, r'validate_credential_with_schema::\{closure', 1),
     ('Jwk::to_public', r'jwk::key::<impl at [^>]*>::to_public$', None, r'key_params::<impl at [^>]*>::to_public$|jwk::key::<impl at [^>]*>::(use_|alg|kid|key_ops|params|from_params|is_public)$', 1),
+]
+
+# the bundled signature verifiers (a second program: their crates): decoded signature and key come from the token / the document
+CRATES_V = ['identity_eddsa_verifier', 'identity_ecdsa_verifier']
+ENTRY_V = [
+    ('Ed25519Verifier::verify', r'ed25519_verifier::<impl at [^>]*>::verify$', None, r'ed25519_verifier::<impl at [^>]*>::verify::\{closure', 1),
+    ('Secp256R1Verifier::verify', r'secp256r1::<impl at [^>]*>::verify$', None, r'secp256r1::<impl at [^>]*>::verify::\{closure', 1),
+    ('Secp256K1Verifier::verify', r'secp256k1::<impl at [^>]*>::verify$', None, r'secp256k1::<impl at [^>]*>::verify::\{closure', 1),
+    ('EdDSAJwsVerifier::verify', r'eddsa_verifier::<impl at [^>]*>::verify$', None, None, 1),
+    ('EcDSAJwsVerifier::verify', r'ecdsa_jws_verifier::<impl at [^>]*>::verify$', None, None, 1),
 ]
 
 # panic sites that are unreachable because of a guard decided elsewhere (site regex on the panic message -> justification)
@@ -78,13 +105,17 @@ CONTRACTS = [
     (r'expect on .* in .*iota_did::<impl[^>]*>::normalize', 'set_method_id(tag) on a DID that passed check_tag: a prefixed-hex tag satisfies valid_method_id (C10 validator + C17 check_tag)'),
     (r'overflow" in core_document::<impl>::check_id_constraints', 'sum of six Vec lengths cannot overflow usize (allocation limit isize::MAX bytes per Vec of non-zero-sized entries)'),
     (r'overflow" in did_url_query::<impl>::fragment', 'index + 1 where index was returned by str::rfind on the same string: index < len <= isize::MAX'),
+    (r'Option::unwrap on None in token::<impl[^>]*>::verify_signature', 'SdJwt\'s Display (third-party sd-jwt-payload) writes "<jwt>~" followed by the disclosures: the text always contains a "~", so split_once cannot fail'),
+    (r'unwrap on (Err|None) in token::<impl[^>]*>::validate_key_binding', 'Jwk is a struct with string/array members: its serde_json value exists and is an object'),
+    (r'Option::expect on None in token::<impl[^>]*>::validate_key_binding', 'rfind(\'~\') on the Display text of an SD-JWT (third-party formatter: "<jwt>~<disclosures~>[kb]" always contains a "~")'),
+    (r'Result::unwrap on Err in vct_to_url', 'origin of an https URL ("https://host[:port]") + "/.well-known/vct" + the URL\'s own path (starts with "/") is again an https URL'),
     (r'expect on .* in revocation_bitmap_status', 'Url::set_query / query_pairs on a URL the same function just built (infallible by construction)'),
 ]
 
 
-def run(ctx, prog):
+def run(ctx, prog, entries=None):
     held = 0
-    for (name, rx, sig, inline, unwind) in ENTRY:
+    for (name, rx, sig, inline, unwind) in (entries or ENTRY):
         def one(name=name, rx=rx, sig=sig, inline=inline, unwind=unwind):
             f = prog.one(rx, sig=sig)
             A = Auditor(ctx, prog)
@@ -190,10 +221,16 @@ def is_sub(t, want):
 def main(ctx):
     prog, info = load(CRATES)
     ctx.extra['mir'] = info
-    ctx.bounds.append('%d entry points; every acyclic path with callee results unconstrained; loops unrolled as noted per obligation' % len(ENTRY))
+    ctx.bounds.append('%d entry points; every acyclic path with callee results unconstrained; loops unrolled as noted per obligation' % (len(ENTRY) + len(ENTRY_V)))
     ctx.outside += ['panics inside callees that are not inlined: serde_json, the third-party did_url_parser beyond its method-id cursor kernel, url, time, flate2, roaring, prefix_hex, sd-jwt-payload',
-                    'entry points whose body is a serde derive or an async state machine not listed above', 'SD-JWT VC beyond IntegrityMetadata (metadata fetching, JSON schema)', 'StatusList2021 get/set/entry/set_entry: decided under C12 on a precise list model (any length <= 2^60 bytes)']
+                    'entry points whose body is a serde derive or an async state machine not listed above', 'SD-JWT VC: async metadata fetching (resolver callbacks), the JSON-schema validator and serde derives', 'StatusList2021 get/set/entry/set_entry: decided under C12 on a precise list model (any length <= 2^60 bytes)']
     run(ctx, prog)
+
+    def verifiers():
+        prog_v, info_v = load(CRATES_V, src_only=['identity_jose'])
+        ctx.extra['mir_verifiers'] = info_v
+        run(ctx, prog_v, entries=ENTRY_V)
+    guarded(ctx, 'bundled signature verifiers', 'M', verifiers)
     # the one third-party callee that is reachable with attacker-chosen text and whose MIR is small enough: the DID-URL parser's
     # method-id phase (cursor inside the input <=> the accessors of an accepted DID cannot slice out of range); shared with C10
     guarded(ctx, 'IntegrityMetadata accessor contract', 'M', lambda: integrity_contract(ctx, prog))
